@@ -320,11 +320,10 @@ Proof. intros i g k H1 H2 H3. apply (decompose_not_ok_of_group i g H1). eapply d
    With map_ids omitted the argument is untouched at this point in every case. *)
 Theorem c18_dq_frame_no_maps : forall i, dq_maps i = None -> dq_final i = dq_circ i.
 Proof. exact dq_frame_no_maps. Qed.
-(* PARTIAL: with map_ids given, the frame is proved for every refusal of the validation and of the map-id
-   pre-check; missing: that the unset-basis_id check cannot fire AFTER the assignment loop.  It cannot when every
-   QPD gate occurs in instruction_ids (then every gate has just been assigned); with duplicate indices
-   ([[0],[0]] on two gates) the count check passes, gate 1 stays unset and the ValueError comes after gate 0 was
-   assigned.  The hypothesis below excludes exactly that; c18_dq_frame derives it from coverage. *)
+(* PARTIAL (kept for reference; superseded by c18_dq_frame_total): with map_ids given, the frame for every refusal
+   of the validation and of the map-id pre-check, under the explicit hypothesis that the unset-basis_id check does
+   not fire after the assignment loop.  Before 50945eb repeated indices ([[0],[0]] on two gates) violated that
+   hypothesis; now they are refused by the validation and c18_dq_validate_covers discharges it. *)
 Theorem c18_dq_frame_partial : forall i,
   api_decompose i <> Proceeds ->
   (dq_maps i = None \/
@@ -337,6 +336,13 @@ Proof. exact dq_frame_partial. Qed.
 Theorem c18_dq_frame : forall i,
   api_decompose i <> Proceeds -> dq_covers (dq_circ i) (dq_ids i) -> dq_final i = dq_circ i.
 Proof. exact dq_frame. Qed.
+(* since 50945eb (no repeated index) a circuit that passes _validate_qpd_instructions is always covered ... *)
+Theorem c18_dq_validate_covers : forall i, dq_validate i = Proceeds -> dq_covers (dq_circ i) (dq_ids i).
+Proof. exact validate_covers. Qed.
+(* ... so the frame holds UNCONDITIONALLY: any outcome other than Proceeds (ValueError at any of the 10 sites, or
+   IndexError) leaves the argument circuit untouched, also with inplace=True *)
+Theorem c18_dq_frame_total : forall i, api_decompose i <> Proceeds -> dq_final i = dq_circ i.
+Proof. exact dq_frame_total. Qed.
 Theorem c18_dq_valid : forall i ms,
   dq_validate i = Proceeds -> dq_maps i = Some ms ->
   length (dq_ids i) = length ms -> dq_check (dq_circ i) (combine (dq_ids i) ms) = true ->
@@ -483,7 +489,7 @@ Proof. split; reflexivity. Qed.
 
 Print Assumptions c18_weights_lt1. Print Assumptions c18_gen_budget_lt1. Print Assumptions c18_pp_phase.
 Print Assumptions c18_pcq_wide_gate. Print Assumptions c18_cg_unsupported. Print Assumptions c18_fc_wide_gate.
-Print Assumptions c18_rc_counts. Print Assumptions c18_dq_map_range. Print Assumptions c18_dq_frame. Print Assumptions c18_dq_frame_partial.
+Print Assumptions c18_rc_counts. Print Assumptions c18_dq_map_range. Print Assumptions c18_dq_frame. Print Assumptions c18_dq_frame_total. Print Assumptions c18_dq_frame_partial.
 Print Assumptions c18_basis_ragged. Print Assumptions c18_q1_half. Print Assumptions c18_sep_none_used.
 Print Assumptions c18_mgo_size.
 
